@@ -104,7 +104,7 @@ Definition verdict_row (c : rcase) : nat :=
              | ExpOk, _ => 3
              | ExpMT _, RRMT _ _ => 0
              | ExpMT _, RROther _ => 2       (* a stale kind escapes `except MonkeyTypeError` *)
-             | ExpMT _, RROk _ => 3
+             | ExpMT _, RROk _ => 2          (* a row that is stale by construction decodes: not skipped, not counted *)
              | ExpOutside, _ => 0
              end in
   if negb (Nat.eqb pre 0) then pre else
@@ -123,25 +123,18 @@ Record scase := SCase {
   sc_world : world;
   sc_args : args;
   sc_rows1 : list row;        (* what the real store.filter returns, in that order *)
-  sc_real1 : list rres;       (* the real to_trace outcome of each of them *)
+  sc_exp1 : list expect;      (* for each of them: valid / stale (BY CONSTRUCTION of the fixture) / outside the property *)
   sc_obs1 : outcome;          (* observed: stdout chunk, stderr lines, status *)
-  sc_rows2 : list row;        (* store.filter on the database holding only the rows that really decode *)
+  sc_rows2 : list row;        (* store.filter on the database holding only the rows that are valid by construction *)
   sc_obs2 : outcome
 }.
 
-Definition real_msgs (rr : list rres) : list string :=
-  flat_map (fun r => match r with RRMT _ m => [m] | _ => [] end) rr.
-Definition real_ok_count (rr : list rres) : nat :=
-  List.length (filter (fun r => match r with RROk _ => true | _ => false end) rr).
-Definition has_other (rr : list rres) : bool :=
-  existsb (fun r => match r with RROther _ => true | _ => false end) rr.
-
-Definition real_report (verbose : bool) (msgs : list string) : list string :=
-  if verbose then map (fun m => ("WARNING: Failed decoding trace: " ++ m)%string) msgs
-  else match msgs with
-       | [] => []
-       | _ :: _ => [count_line (List.length msgs)]
-       end.
+Definition n_stale (es : list expect) : nat :=
+  List.length (filter (fun e => match e with ExpMT _ => true | _ => false end) es).
+Definition n_valid (es : list expect) : nat :=
+  List.length (filter (fun e => match e with ExpOk => true | _ => false end) es).
+Definition has_outside (es : list expect) : bool :=
+  existsb (fun e => match e with ExpOutside => true | _ => false end) es.
 
 Definition last_is_no_traces (err : list string) : bool :=
   match rev err with
@@ -149,17 +142,25 @@ Definition last_is_no_traces (err : list string) : bool :=
   | [] => false
   end.
 
-(* the property, evaluated on the implementation's two observed runs only *)
+(* The property, evaluated on the implementation's two observed runs only: same stdout as the valid rows alone,
+   status 0, and stderr = the report of the n stale rows (one count line, or n WARNING lines with -v) followed by
+   the stderr of the valid rows alone; nothing valid -> empty stdout and "No traces found" right after the report. *)
 Definition prop_pred (c : scase) : bool :=
-  let rep := real_report (a_verbose (sc_args c)) (real_msgs (sc_real1 c)) in
+  let n := n_stale (sc_exp1 c) in
+  let verbose := a_verbose (sc_args c) in
+  let nrep := if verbose then n else if Nat.eqb n 0 then 0 else 1 in
   match sc_obs1 c, sc_obs2 c with
   | Exit out1 err1 rc1, Exit out2 err2 rc2 =>
       list_str_eqb out1 out2
-      && list_str_eqb err1 (rep ++ err2)
       && Nat.eqb rc1 0
-      && (if Nat.eqb (real_ok_count (sc_real1 c)) 0
+      && (if verbose
+          then Nat.eqb (List.length (firstn n err1)) n
+               && forallb (String.prefix "WARNING: Failed decoding trace: ") (firstn n err1)
+               && list_str_eqb (skipn n err1) err2
+          else list_str_eqb err1 ((if Nat.eqb n 0 then [] else [count_line n]) ++ err2))
+      && (if Nat.eqb (n_valid (sc_exp1 c)) 0
           then match out1 with [] => true | _ => false end
-               && last_is_no_traces err1 && Nat.eqb (List.length err1) (S (List.length rep))
+               && last_is_no_traces err1 && Nat.eqb (List.length err1) (S nrep)
           else true)
   | _, _ => false
   end.
@@ -180,10 +181,10 @@ Definition model_run (c : scase) (rows : list row) : outcome :=
       (sc_args c) (sc_world c) rows.
 
 Definition verdict_cli (c : scase) : nat :=
-  if negb (Nat.eqb (List.length (sc_rows1 c)) (List.length (sc_real1 c))) then 3 else
-  if negb (has_other (sc_real1 c)) && negb (prop_pred c) then 2 else
+  if negb (Nat.eqb (List.length (sc_rows1 c)) (List.length (sc_exp1 c))) then 3 else
+  if negb (has_outside (sc_exp1 c)) && negb (prop_pred c) then 2 else
   if outcome_eqb (model_run c (sc_rows1 c)) (sc_obs1 c)
-     && (has_other (sc_real1 c) || outcome_eqb (model_run c (sc_rows2 c)) (sc_obs2 c))
+     && (has_outside (sc_exp1 c) || outcome_eqb (model_run c (sc_rows2 c)) (sc_obs2 c))
   then 0 else 1.
 
 (* stub of rows == stub of the same rows with the traced names that are no longer parameters removed *)
